@@ -196,6 +196,7 @@ MENU = [
     ("eq", {(0,): 1, (1,): 1, (2,): -1, (): -1}, True),       # general squared form
     ("ne", {(0,): -1, (1,): -2}, True),                       # != with maximum exactly 0 (implemented through <)
     ("ne", {(0,): 1, (2,): 2}, True),                         # != with minimum exactly 0 (implemented through >)
+    ("ne", {(1,): 1, (2,): -3}, True),                        # != whose range reaches much further below 0 than above
 ]
 SPIN_MENU = [
     ("le", {(0,): 1, (1,): 1, (2,): 1, (): -1}, True),
